@@ -5,6 +5,7 @@ import (
 	"fmt"
 	"math"
 	"math/rand"
+	"strconv"
 	"strings"
 	"unicode/utf8"
 
@@ -254,6 +255,51 @@ func suiteC05(c *Ctx) []Suite {
 					}
 				}
 				out = append(out, cs)
+			}
+			return out
+		}},
+		{Name: "sml/ascii-in-pieces", Gen: func(c *Ctx) []Case {
+			// an A item written in several pieces (quoted strings and character codes) holds the
+			// pieces one after the other, whether or not white space stands between them - two
+			// quoted strings that touch are two strings, not an escaped quote
+			var out []Case
+			pieces := [][]string{{`"ab"`, `"cd"`}, {`""`, `""`}, {`"a"`, `""`, `"b"`}, {`"x"`, "0x22", `"y"`}, {`""`, `"q"`}, {`"ab"`, `"cd"`, `"ef"`},
+				{`"a"`, "65", `"b"`}, {"0x41", "0x42"}, {`"say "`, "0x22", `"hi"`, "0x22"}, {`"\\"`, `"n"`}, {`"'"`, `"'"`}}
+			for _, ps := range pieces {
+				want := ""
+				for _, p := range ps {
+					if strings.HasPrefix(p, `"`) {
+						want += p[1 : len(p)-1]
+					} else {
+						v, _ := strconv.ParseInt(p, 0, 32)
+						want += string(rune(v))
+					}
+				}
+				for _, sep := range []string{"", " ", "\n", "\t", " //c\n"} {
+					if sep == "" {
+						// two numbers written without a gap are one (malformed) number
+						glued := false
+						for i := 1; i < len(ps); i++ {
+							if !strings.HasPrefix(ps[i-1], `"`) && !strings.HasPrefix(ps[i], `"`) {
+								glued = true
+							}
+						}
+						if glued {
+							continue
+						}
+					}
+					for _, frame := range []string{"S1F1 W H->E <A %s>.", "S1F1 W H->E\n<L\n  <U1 1>\n  <A %s>\n>\n.", "S1F1 W <A[" + fmt.Sprint(len(want)) + "] %s> ."} {
+						text := fmt.Sprintf(frame, strings.Join(ps, sep))
+						res := parseSML(text)
+						oracle := ""
+						if res.panicked || len(res.errs) != 0 || len(res.msgs) != 1 {
+							oracle = fmt.Sprintf("pieces %v rejected: %v", ps, res.errs)
+						} else if it := findASCII(res.msgs[0].String()); it != want {
+							oracle = fmt.Sprintf("pieces %v joined by %q hold %q, want %q", ps, sep, it, want)
+						}
+						out = append(out, Case{Op: smlOp(text), Decisive: true, Oracle: oracle, Nontrivial: true, Tags: []string{fmt.Sprintf("pieces:%d sep:%q", len(ps), sep)}}.fields("n err warn str"))
+					}
+				}
 			}
 			return out
 		}},
@@ -1264,6 +1310,19 @@ func suiteC15(c *Ctx) []Suite {
 		{Name: "size/ascii-variable-under-ellipsis", Gen: func(c *Ctx) []Case { return ellipsisCases(c, c.N(1500), 3, 3) }},
 		{Name: "size/ascii-variable-bounds", Gen: func(c *Ctx) []Case {
 			var out []Case
+			// several ASCII variables whose names and bounds run into each other when written side by
+			// side (`lot1` [2..30] and `lot` [12..30], `w2` [3..] and `w` [23..], `id1` [1] and `id` [11]):
+			// every variable keeps its own name and its own bounds, in one text and across texts
+			for _, pr := range [][2]string{{"<A[2..30] lot1>", "<A[12..30] lot>"}, {"<A[3..] wafer2>", "<A[23..] wafer>"}, {"<A[1] id1>", "<A[11] id>"},
+				{"<A[..7] x_1>", "<A[..17] x_>"}, {"<A[0..5] p1>", "<A[10..5] p>"}, {"<A[12..30] lot>", "<A[2..30] lot1>"}, {"<A[2] k11>", "<A[12] k1>"}} {
+				for _, text := range []string{
+					"S1F1 H->E\n<L\n  " + pr[0] + "\n  " + pr[1] + "\n>\n.",
+					"S1F1 H->E\n<L " + pr[0] + ">\n.\nS1F3 H->E\n<L " + pr[1] + ">\n.",
+					"S1F1 H->E " + pr[0] + " .\nS1F3 H->E " + pr[1] + " .\nS1F5 H->E " + pr[0] + " .",
+				} {
+					out = append(out, Case{Op: smlOp(text), Decisive: true, Nontrivial: true, Tags: []string{"look-alike-variables"}}.fields("n err warn str vars"))
+				}
+			}
 			max := 4
 			if c.Tier == "thorough" {
 				max = 6
@@ -1591,4 +1650,42 @@ func suiteC19(c *Ctx) []Suite {
 			return out
 		}},
 	}
+}
+
+// findASCII recovers the characters of the (last) A item from a printed message: quoted runs and
+// 0xNN codes between "<A" and the closing ">".
+func findASCII(printed string) string {
+	i := strings.LastIndex(printed, "<A")
+	if i < 0 {
+		return "?"
+	}
+	rest := printed[i+2:]
+	if j := strings.Index(rest, "]"); strings.HasPrefix(rest, "[") && j > 0 {
+		rest = rest[j+1:]
+	}
+	out := ""
+	for len(rest) > 0 {
+		switch {
+		case rest[0] == '"':
+			j := strings.IndexByte(rest[1:], '"')
+			if j < 0 {
+				return "?"
+			}
+			out += rest[1 : 1+j]
+			rest = rest[j+2:]
+		case strings.HasPrefix(rest, "0x"):
+			j := 2
+			for j < len(rest) && strings.IndexByte("0123456789abcdefABCDEF", rest[j]) >= 0 {
+				j++
+			}
+			v, _ := strconv.ParseInt(rest[2:j], 16, 32)
+			out += string(rune(v))
+			rest = rest[j:]
+		case rest[0] == '>':
+			return out
+		default:
+			rest = rest[1:]
+		}
+	}
+	return out
 }
